@@ -43,6 +43,12 @@ var (
 // die makes a member return Reason from its message handler
 type die struct{ Reason error }
 
+// block keeps a member busy inside its message handler until Release is closed
+type block struct {
+	Entered chan struct{}
+	Release chan struct{}
+}
+
 // ---------------------------------------------------------------------------
 // instrumented application
 
@@ -87,6 +93,41 @@ type App struct {
 	mu      sync.Mutex
 	cbs     []cbEv
 	members []*member
+
+	// members the harness keeps busy inside a handler (pid -> *block); quiescence does not wait for them
+	blocked sync.Map
+}
+
+// blockMember parks the member inside its message handler; false = watchdog
+func (a *App) blockMember(pid gen.PID) bool {
+	b := &block{Entered: make(chan struct{}), Release: make(chan struct{})}
+	a.blocked.Store(pid, b)
+	if err := node.Send(pid, *b); err != nil {
+		a.blocked.Delete(pid)
+		return false
+	}
+	select {
+	case <-b.Entered:
+		return true
+	case <-time.After(10 * time.Second):
+		close(b.Release)
+		a.blocked.Delete(pid)
+		return false
+	}
+}
+
+func (a *App) releaseMember(pid gen.PID) {
+	if v, ok := a.blocked.LoadAndDelete(pid); ok {
+		close(v.(*block).Release)
+	}
+}
+
+func (a *App) releaseAll() {
+	a.blocked.Range(func(k, v any) bool {
+		a.blocked.Delete(k)
+		close(v.(*block).Release)
+		return true
+	})
 }
 
 func newApp(name string, n int, mode gen.ApplicationMode, deps ...gen.Atom) *App {
@@ -246,6 +287,9 @@ func (a *App) factory(slot int) gen.ProcessFactory {
 			switch m := msg.(type) {
 			case die:
 				return m.Reason
+			case block:
+				close(m.Entered)
+				<-m.Release
 			case string:
 				if m == "panic" {
 					panic("c17 requested panic")
@@ -394,6 +438,9 @@ func quiesce(apps ...*App) bool {
 				return false
 			}
 			for _, m := range a.Members() {
+				if _, parked := a.blocked.Load(m.I.PID); parked {
+					continue // kept inside a handler by the harness
+				}
 				if m.I.InCallback() {
 					return false
 				}
@@ -427,6 +474,9 @@ func appState(name gen.Atom) string {
 
 // cleanup kills whatever is left and unloads the apps (best effort, unique names keep cases independent)
 func cleanup(apps ...*App) {
+	for _, a := range apps {
+		a.releaseAll()
+	}
 	for k := 0; k < 2; k++ {
 		for _, a := range apps {
 			for _, m := range a.Members() {
@@ -636,7 +686,7 @@ func sortedKeys(m map[string]bool) []string {
 
 func main() {
 	hk.InstallHook()
-	hk.Rule("histories: seeded random sequential histories over {Load, Start, StartPermanent/Transient/Temporary (optionally with a member whose Init fails), Stop, StopForce, StopWithTimeout, Unload, member death x {normal, shutdown, custom error, panic, Kill, exit signal}} for 1-4 applications (dependency DAG) of 1-4 members, every step compared with a reference model at quiescence; non-trivial iff the history contains >=1 observed stop caused by a member death and >=1 successful restart after a stop; distinct = set of (mode, stop cause) classes observed x number of apps x failed-start seen. directed: gate-controlled concurrent schedules (member death before/after group.Store while the starter is parked at app.start.spawned, two members dying together, a terminator delayed (gate at app.term.swap / slow logger) across a restart, Stop racing a crash, Stop during Start, Start from two goroutines, dependency start in progress, immediate restart loops); non-trivial iff the gate fired / the contested interleaving was observed; distinct = parameters x observed class")
+	hk.Rule("histories: seeded random sequential histories over {Load, Start, StartPermanent/Transient/Temporary (optionally with a member whose Init fails), Stop, StopForce, StopWithTimeout, Unload, member death x {normal, shutdown, custom error, panic, Kill, exit signal}} for 1-4 applications (dependency DAG) of 1-4 members, every step compared with a reference model at quiescence; non-trivial iff the history contains >=1 observed stop caused by a member death and >=1 successful restart after a stop; distinct = set of (mode, stop cause) classes observed x number of apps x failed-start seen. histories-stopping (HB): the same plus block/release of members inside a handler so that the application stays in state stopping over several steps; non-trivial iff an Unload was attempted while stopping and the delayed stop was observed to complete. directed: gate-controlled concurrent schedules (member death before/after group.Store while the starter is parked at app.start.spawned, two members dying together, a terminator delayed (gate at app.term.swap / slow logger) across a restart, Stop racing a crash, Stop during Start, Start from two goroutines, dependency start in progress, immediate restart loops, Unload while stopping / racing a stop); non-trivial iff the gate fired / the contested interleaving was observed; distinct = parameters x observed class")
 	hk.Assume("a member counts as terminated once it is no longer in the node's process table (ProcessState returns an error); its own Terminate callback may still follow")
 	hk.Assume("accepted Terminate reasons: Permanent/Transient-abnormal stop = reason of the causing member; stop by last member (Temporary, or Transient after normal exits) = normal or the reason of that member; ApplicationStop/StopWithTimeout = shutdown; ApplicationStopForce = kill")
 	hk.Assume("the hook gates only delay a goroutine of the framework at a yield point; every gated schedule is a schedule the Go scheduler may produce on its own")
@@ -658,7 +708,14 @@ func main() {
 		runAllDirected()
 	}
 	for k := 0; k < n; k++ {
-		runHistory(k)
+		runHistory(k, false)
+	}
+	// histories with members kept busy in a handler: the application stays in state stopping
+	// for several steps (unload / start / stop / force while stopping)
+	if os.Getenv("C17_DEV_RESTART") == "" {
+		for k := 0; k < hk.Pick(250, 3000); k++ {
+			runHistory(k, true)
+		}
 	}
 
 	for _, c := range deferred {
